@@ -32,7 +32,7 @@ Rule(src, dst) == [src |-> src, dst |-> dst]
 DPath(segs) == PT(FALSE, segs)
 DerivePool == <<
   DCall("all_d", DPath(<<"x">>), <<"::d::All">>, FALSE),
-  DCall("all_a", DPath(<<"x">>), <<"#[all_attr]", "#[all_attr(b)]", "#[all_attr(a = 2)]">>, FALSE),
+  DCall("all_a", DPath(<<"x">>), <<"#[all_attr]", "#[all_attr(b)]", "#[all_attr(a=2)]">>, FALSE),
   DCall("for_d", DPath(<<"m", "R">>), <<"::d::RecR">>, TRUE),
   DCall("for_d", DPath(<<"m", "deep", "er", "W">>), <<"::d::RecW", "Clone">>, TRUE),
   DCall("for_a", DPath(<<"m", "Z">>), <<"#[rec_z]">>, TRUE),
